@@ -2,7 +2,7 @@
 NOTES = ("Runtime monitoring only: every verdict is an oracle observing executions of the real code. Exit 0 = held on what was observed, "
          "exit 1 + VIOLATION line = refuted with replay file, exit 2 + INCONCLUSIVE line = nothing can be said (never folded into the others). "
          "Known findings: /verif/known_findings.json.")
-HOOK_COMMITS = []
+HOOK_COMMITS = ["f9ac6f7"]
 
 add("C01", "exploration",
     "runtime monitor: encode/decode round-trip oracle over generated well-formed packets (class cross product + seeded fill), recover()-guarded",
@@ -46,3 +46,8 @@ add("C19", "exploration",
     "runtime monitor: differential against an independent video-layers-allocation00 encoder/decoder over all slot subsets; fresh-vs-used receiver twin; recover()-guarded decoder fuzz",
     "Thorough executes all 69 900 slot subsets x resolution flag; quick all subsets for <=2 streams plus 20 000 sampled.",
     "Reference encoder/decoder cross-checked on every case; empty allocation only panic-checked.")
+
+add("C07", "exploration",
+    "Go race detector + client-boundary history recording checked offline by porcupine (linearizability against a sequential (last, rollovers) model) and by an O(n log n) unique-value real-time-order checker; exhaustive sequential pass over all 65 536 start values",
+    "All 65 536 start values sequentially; 10k (quick) / 200k (thorough) short concurrent histories with the wrap inside and 3 / 100 long histories, all on the race-instrumented build with injected yields (client side and at an in-method hook).",
+    "Only schedules the Go scheduler produced were observed; a race-free non-atomic change is found probabilistically (the evidence counts overlapping operations and distinct issue orders).")
